@@ -18,9 +18,8 @@ ValSeq == SetToSeq(Vals)
 TextKeys == {<<97>>, <<66>>, <<99>>}
 TextVals == <<<<97>>, <<66>>, <<99>>, <<100>>, <<65>>, <<98>>>>
 Row(keys, v, isText) ==
-  LET clash == isText /\ CaseClash(v, keys)
-      ef == IF clash THEN OOS ELSE ExactFirst(v, keys)
-      el == IF clash THEN OOS ELSE ExactLast(v, keys)
+  LET ef == IF isText THEN ExactFirstT(v, keys) ELSE ExactFirst(v, keys)     \* text keys differing in case only ARE hits
+      el == IF isText THEN ExactLastT(v, keys) ELSE ExactLast(v, keys)
       ap == IF isText THEN OOS ELSE ApproxRow(v, keys)
   IN [ef |-> ef, el |-> el, ap |-> ap, v2 |-> ValueAt(ef, 2), v3 |-> ValueAt(ef, 3), a2 |-> ValueAt(ap, 2)]
 RowB(keys, v) ==
